@@ -462,20 +462,20 @@ def localWFB (d : ArrayData) : Bool :=
       decide (c.type = item) &&
       ((d.len == 0 && offs.isEmpty) ||
        allBelow d.len (fun i => offsetPairOk offs large c.len (d.offset + i))) &&
-      (nullable || allBelow c.len (fun j => c.isValid j))
+      (nullable || c.nulls.isNone || allBelow c.len (fun j => c.isValid j))
     | _, _ => false
   | .fsl n item nullable =>
     d.buffers.isEmpty &&
     match d.children with
     | [c] =>
       decide (c.type = item) && decide ((d.offset + d.len) * n ≤ c.len) &&
-      (nullable || allBelow d.len (childValidWhereParentValid d c n))
+      (nullable || c.nulls.isNone || allBelow d.len (childValidWhereParentValid d c n))
     | _ => false
   | .struct fields =>
     d.buffers.isEmpty &&
     fieldsMatch (fun f c => decide (c.type = f.2.1) && decide (d.offset + d.len ≤ c.len))
       fields.toList d.children &&
-    fieldsMatch (fun f c => f.2.2 || allBelow d.len (childValidWhereParentValid d c 1))
+    fieldsMatch (fun f c => f.2.2 || c.nulls.isNone || allBelow d.len (childValidWhereParentValid d c 1))
       fields.toList d.children
   | .dict kw signed value =>
     match d.buffers, d.children with
